@@ -18,7 +18,7 @@ import z3
 
 from symx.core import rv, frac, prove, model_value
 
-from pySDC.helpers.spectral_helper import ChebychevHelper, UltrasphericalHelper, SpectralHelper
+from pySDC.helpers.spectral_helper import ChebychevHelper, UltrasphericalHelper, SpectralHelper, FFTHelper
 
 PID = 'C17'
 BOUNDS = {'quick': dict(N='2..8', derivative_orders='1..3', intervals='[-1,1] [0,1] [-2,5]'), 'thorough': dict(N='2..16')}
@@ -29,7 +29,7 @@ def describe(rep):
              ChebychevHelper.get_Neumann_BC_row, ChebychevHelper.get_integ_BC_row, ChebychevHelper.get_integration_weights, UltrasphericalHelper.get_differentiation_matrix,
              UltrasphericalHelper.get_S, UltrasphericalHelper.get_basis_change_matrix, UltrasphericalHelper.get_integration_matrix, SpectralHelper.expand_matrix_ND)
     rep.explanation = __doc__
-    rep.rule = 'case = (helper, N, operator, derivative order / interval; N-D tensor-product cases also on long / short intervals with derivative orders 1-3, tolerance relative to the largest 1-D entry); one SMT query over all coefficient vectors in the unit box'
+    rep.rule = 'case = (helper, N, operator, derivative order / interval; N-D tensor-product cases also on long / short intervals with derivative orders 1-3, tolerance relative to the largest 1-D entry; grids: every N in 1..64 on nine intervals, ENUMERATED); one SMT query over all coefficient vectors in the unit box'
     rep.assume('tolerance 1e-10 * (sum of absolute monomial conversion coefficients): the matrices are float64',
                'the interval map is x = fac * s + off with s in [-1,1]; operators that carry the map are checked on [x0,x1] = [-1,1], [0,1], [-2,5]')
     rep.out_of_scope('transforms in more than one dimension, padded / truncated transforms (shape argument), MPI transforms',
@@ -46,6 +46,7 @@ def tasks(tier, seed):
     for N in ((2, 3, 4, 5, 8) if tier == 'quick' else (2, 3, 4, 5, 6, 7, 8, 12, 16)):
         T.append(('transform', N))
     T.append(('edge',))
+    T.append(('fftgrid',))
     for N0, seq in ((6, ((4, True), (6, True), (8, True), (5, True), (4, True), (3, False), (7, False), (3, False))), (3, ((5, False), (2, True), (5, True), (2, False)))):
         T.append(('sizes', N0, seq))
     T.append(('kron',))
@@ -65,6 +66,8 @@ def run_task(rep, task):
         transform_case(rep, task[1])
     elif task[0] == 'edge':
         edge_case(rep)
+    elif task[0] == 'fftgrid':
+        fftgrid_case(rep)
     elif task[0] == 'sizes':
         sizes_case(rep, task[1], task[2])
     elif task[0] == 'kron':
@@ -379,6 +382,38 @@ def transform_case(rep, N):
         rep.side(f'{name}:synthesis-of-a-unit-coefficient-is-its-mode', bool(np.abs(Sm - modes).max() < 1e-12), {'max_deviation': float(np.abs(Sm - modes).max())})
         rep.side(f'{name}:grid-and-wavenumbers', bool(np.allclose(xg, x0 + (x1 - x0) * np.arange(N) / N, atol=1e-14) and np.allclose(k, 2 * np.pi / (x1 - x0) * np.fft.fftfreq(N, 1.0 / N), atol=1e-12)))
     rep.sample({'case': f'transform/N{N}', 'free': 'grid data / coefficient vectors in the unit box', 'tables': 'matrices of the real transforms from unit vectors'}, limit=2)
+
+
+def fftgrid_case(rep):
+    """the grids the operators are stated on, for EVERY resolution 1..64 (the operator cases take a few small N): the Fourier grid has exactly N points
+    x0 + j (x1 - x0) / N, the wavenumbers are 2 pi / L times the integer frequencies; Chebyshev / ultraspherical grids have N points inside [x0, x1]
+    (concrete data only: ENUMERATED over N and nine intervals)"""
+    ivs = ((0.0, 2 * np.pi), (0.5, 2.5), (0.0, 1.0), (-2.0, 5.0), (3.0, 3.0 + 4 * np.pi), (0.1, 0.7), (-1.0, 1.0), (1.0, 1.3), (0.0, 0.3))
+    for (x0, x1) in ivs:
+        L = x1 - x0
+        badF, badC = [], []
+        for N in range(1, 65):
+            try:
+                h = FFTHelper(N, x0=x0, x1=x1)
+                x = np.asarray(h.get_1dgrid(), dtype=float)
+                k = np.asarray(h.get_wavenumbers(), dtype=float)
+                ok = x.shape == (N,) and np.allclose(x, x0 + L * np.arange(N) / N, rtol=0, atol=1e-12 * max(1.0, abs(x0), abs(x1))) and k.shape == (N,) \
+                    and np.allclose(k, 2 * np.pi / L * np.fft.fftfreq(N, 1.0 / N), rtol=1e-13, atol=1e-12)
+            except Exception as e:
+                ok = False
+            if not ok:
+                badF.append(N)
+            for cls in (ChebychevHelper, UltrasphericalHelper):
+                try:
+                    xg = np.asarray(cls(N, x0=x0, x1=x1).get_1dgrid(), dtype=float)
+                    okc = xg.shape == (N,) and np.all(xg >= x0 - 1e-12 * max(1, abs(x0))) and np.all(xg <= x1 + 1e-12 * max(1, abs(x1))) and len(set(np.round(xg, 13))) == N
+                except Exception:
+                    okc = N == 0
+                if not okc:
+                    badC.append((cls.__name__, N))
+            rep.translator += 1
+        rep.side(f'fftgrid/[{x0:.4g},{x1:.4g}]:N-equispaced-points-and-integer-wavenumbers-for-N-1..64', not badF, {'resolutions_failing': badF[:10]})
+        rep.side(f'chebgrid/[{x0:.4g},{x1:.4g}]:N-distinct-points-inside-the-interval-for-N-1..64', not badC, {'failing': badC[:10]})
 
 
 def edge_case(rep):
